@@ -75,6 +75,19 @@ def cases(ctx):
                # astype target: the dtype some column already has (exercises the `dtype == b.dtype` skip inside a
                # block with further targets) or object
                'ac': rng.choice([None] + list(range(m)))}
+    # row keys that are a run of consecutive positions in another order, with the ends of the ascending run (what a block
+    # manager recognising runs by their ends and length would mistake for a slice)
+    for i in range(150 if quick else 2000):
+        spec = gen.rand_frame_spec(rng, 7, 5, dtypes=['int64', 'float64', 'str'], min_cols=2, min_rows=4, run_bias=0.6)
+        n, m = spec['rows'], len(spec['cols'])
+        k = rng.randint(4, n)
+        a = rng.randint(0, n - k)
+        mid = list(range(a + 1, a + k - 1))
+        rng.shuffle(mid)
+        if mid == sorted(mid):
+            mid.reverse()
+        yield {'k': 'tb', 'spec': spec, 'op': 'extract', 'rk': ['list', a] + mid + [a + k - 1],
+               'ck': gen.rand_key(rng, m, kinds=('sl', 'list', 'all'), unique_list=True), 'ac': None}
     names = ops.catalogue_names()
     for i in range(8000 if quick else 60000):
         spec = gen.rand_frame_spec(rng, 4, 5, dtypes=rng.choice([gen.DTYPES_BASIC, ['int64', 'float64'], ['float64', 'object', 'str'], gen.DTYPES_ALL]),
@@ -91,6 +104,16 @@ def cases(ctx):
             la = lays[0]
             for lb in lays[1:12]:
                 yield {'k': 'layout', 'spec': spec, 'la': la, 'lb': lb, 'op': name, 'args': args}
+    # one dtype throughout, several columns: per-block partial results (2-D blocks next to 1-D ones) must combine to what the
+    # consolidated frame answers - for Booleans and narrow integers the partial result of a block does not fit the block's dtype
+    for i in range(300 if quick else 3000):
+        dt = rng.choice(['bool', 'bool', 'int8', 'uint8', 'int64', 'float64'])
+        spec = gen.rand_frame_spec(rng, 4, 5, dtypes=[dt], index_kinds=('auto', 'str'), column_kinds=('auto', 'str'), min_cols=3, min_rows=1)
+        lays = same_dtype_layouts(spec, rng)
+        if len(lays) < 2:
+            continue
+        la, lb = rng.sample(lays, 2)
+        yield {'k': 'layout', 'spec': spec, 'la': la, 'lb': lb, 'op': 'reduce', 'args': [rng.choice(['sum', 'sum', 'prod', 'min', 'max', 'all', 'any']), 1, rng.random() < 0.5]}
     for i in range(400 if quick else 4000):
         # every third case draws from one family of dtypes (same kind, different widths): caches keyed on the kind alone show up
         fam = rng.choice([['int64', 'int8'], ['float64', 'float32'], ['str'], ['datetime64[D]', 'datetime64[s]'], ['uint8', 'uint64', 'int8']]) if i % 3 == 0 else gen.DTYPES_ALL
